@@ -12,7 +12,7 @@ EXTENDS KeyParser, Json, IOUtils, SequencesExt
 CONSTANTS MaxFull, MaxLen,
           Part, NParts     \* this run enumerates the sequences whose SECOND line id is congruent Part modulo NParts (shorter ones: Part 0)
 VARIABLE x
-More(p) == TestRun(p, TRUE).more
+More(p) == TestRun(p, TRUE, FALSE).more
 Ext(P, A) == UNION { {Append(p, a) : a \in A} : p \in {q \in P : More(q)} }
 \* after the parser has stopped one more line is appended: it must not be read any more
 DeadProbe == 29
@@ -27,8 +27,13 @@ CoreLevel(C, n) == IF n = 0 THEN {<<>>} ELSE {q \in Ext(CoreLevel(C, n - 1), C) 
 SmallCoreIds == {1, 3, 5, 13, 18, 27, 29, 33, 37, 44, 50}
 FullSeqs == {q \in UNION {FullLevel(n) : n \in 0..MaxFull} : Mine(q)}
 DeepSeqs == UNION {Ext(CoreLevel(SmallCoreIds, n - 1), AlphaIds) : n \in (MaxFull + 1)..MaxLen}
-Rec(p, nl) == [e |-> "Run", ids |-> p, nl |-> nl, text |-> TextsOf(p)]
-Runs == {Rec(p, nl) : p \in FullSeqs, nl \in BOOLEAN} \cup {Rec(p, TRUE) : p \in DeepSeqs}
+Rec(p, nl, crlf) == [e |-> "Run", ids |-> p, nl |-> nl, crlf |-> crlf, text |-> TextsOf(p)]
+\* line ends are a dimension of the text: DOS line ends (CR LF) for every sequence of at most 2 lines (every
+\* line kind) and for every sequence that contains a continued line
+HasCont(p) == \E k \in 1..Len(p) : p[k] \in ContIds
+Runs == {Rec(p, nl, FALSE) : p \in FullSeqs, nl \in BOOLEAN} \cup {Rec(p, TRUE, FALSE) : p \in DeepSeqs}
+        \cup {Rec(p, nl, TRUE) : p \in {q \in FullSeqs : Len(q) <= 2 \/ HasCont(q)}, nl \in BOOLEAN}
+        \cup {Rec(p, TRUE, TRUE) : p \in {q \in DeepSeqs : HasCont(q)}}
 GenFile == IF "GEN" \in DOMAIN IOEnv THEN IOEnv.GEN ELSE "gen.ndjson"
 GenInit == /\ x = 0
            /\ PrintT(<<"RUNS", Cardinality(FullSeqs), Cardinality(DeepSeqs)>>)
